@@ -30,6 +30,7 @@ const VALS: &[&str] = &[
     "2147483647", "2147483648", "-2147483647", "-2147483648", "1e10", "1e9", "NaN", "inf", "-inf", "", "x", "None", "Normal", "Soft", "Drum",
     "Half speed", "Double speed", "half speed", "a b.mp3", "dir\\f.mp3", "1 // c", "1//c", "// c", "1,2,3", "10,20,30,40", "1,2", "1,2,3,4,5",
     "256,0,0", "-1,0,0", " 1 , 2 , 3 ", "1,x,3", "1,2,3 // c", "100,200,30,x", "+1,+2,+3", "a:b", "1:2", ": 5", "Re:Zero // x", "1e-320", "-0",
+    "1.0000000596046447753906251", "16777217.0000000001", "2147483649", "2147483776", "2147483777", "-2147483700",
     "0.1e1", "1.", ".5", "1,2,3,", "1,,3", "é", "日本語 title", "１", "1\u{a0}", "\u{feff}1", "٣",
 ];
 
